@@ -2228,8 +2228,9 @@ theorem walkCore_Ledger (e : Env) (s : St) (lh : Int) (dest : Nat) (prune : Bool
     obtain ⟨C2, t1, _, t3⟩ := todoAll_Ledger e lh (undoTodo e s.pointer dest).2 _ C0 u1 u2 hnd hblk
     exact ⟨C2, t1, t3⟩
 
-/-- **`walk` with ANY re-admission list `L` taken from the old pool keeps the ledger invariant** — the form every walk
-theorem below is an instance of (`walk e` re-admits `repostList e s`, `walk (e.withSkip l)` the old pool without `l`).
+/-- **`walk` with ANY re-admission list `L` taken from the old pool keeps the ledger invariant** — the form of which
+every walk theorem below is an instance (`walk e` re-admits `repostList e s`, `walk (e.withSkip l)` the old pool without
+`l`).
 `hre`: a re-submitted transaction that the new branch confirms has a token input (then its re-admission is refused: the
 input is spent). -/
 theorem walkL_Ledger (e : Env) (s : St) (lh : Int) (dest : Nat) (prune : Bool) (C C0 : List Nat) (h : Ledger e s C)
